@@ -1,5 +1,6 @@
 import DaskModel.Lemmas.TruthfulPaths
 import DaskModel.Props.C45
+import DaskModel.Props.C40
 /-! # C41 — known divisions always describe the partitions truthfully (theorems)
 
 `Truthful key divs parts` (Lemmas/Truthful.lean) is the statement's predicate. One theorem per
@@ -341,6 +342,263 @@ theorem loc_slice_truthful_partial {α : Type} (key : α → Nat) (divs : List N
 example : locSlice [0, 5, 18, 25, 28] (some 17) (some 31) = some ⟨1, 3, [17, 18, 25, 28]⟩ := by decide
 example : locSlice [0, 5, 18, 25, 28] (some 6) (some 9) = some ⟨1, 1, [6, 9]⟩ := by decide
 
+
+
+theorem partitionOf_eq_spp (divs : List Nat) (v : Nat) (h2 : 2 ≤ divs.length) :
+    partitionOf divs v = Dask.Shuffle.setPartitionsPre divs (some v) true true := by
+  unfold partitionOf Dask.Shuffle.setPartitionsPre
+  have hb : bisectRight divs v = Dask.Shuffle.bisectRight divs v := rfl
+  simp only [if_true]
+  rw [← hb]
+  have hle : bisectRight divs v ≤ divs.length := by
+    unfold bisectRight; exact (List.takeWhile_sublist _).length_le
+  split
+  · omega
+  · split <;> omega
+
+/-- `_partition_of_index_value`: the interval of the divisions that contains the value (clamped at both ends) -/
+theorem partitionOf_spec (divs : List Nat) (v d0 dl : Nat) (hs : divs.Pairwise (· ≤ ·)) (h2 : 2 ≤ divs.length)
+    (h0 : divs.head? = some d0) (hl : divs.getLast? = some dl) :
+    partitionOf divs v + 2 ≤ divs.length ∧
+    (d0 ≤ v → v < dl → ∃ lo hi, divs[partitionOf divs v]? = some lo ∧ divs[partitionOf divs v + 1]? = some hi ∧ lo ≤ v ∧ v < hi) ∧
+    (dl ≤ v → partitionOf divs v = divs.length - 2) ∧ (v < d0 → partitionOf divs v = 0) := by
+  rw [partitionOf_eq_spp divs v h2]
+  exact Dask.C40.set_partitions_pre_spec divs v true d0 dl hs h2 h0 hl
+
+
+
+theorem getElem?_last_of_cons_append {β : Type} (a z : β) (mid : List β) (k : Nat) (hk : k = mid.length + 1) :
+    (a :: (mid ++ [z]))[k]? = some z := by
+  subst hk
+  simp [List.getElem?_append_right]
+
+theorem div_le_of_sorted {divs : List Nat} (hsorted : divs.Pairwise (· ≤ ·)) (a b x y : Nat) (hab : a ≤ b)
+    (hx : divs[a]? = some x) (hy : divs[b]? = some y) : x ≤ y := by
+  rcases Nat.eq_or_lt_of_le hab with rfl | hlt
+  · rw [hx] at hy; cases hy; exact Nat.le_refl _
+  · obtain ⟨ha', rfl⟩ := List.getElem?_eq_some_iff.mp hx
+    obtain ⟨hb', rfl⟩ := List.getElem?_eq_some_iff.mp hy
+    exact (List.pairwise_iff_getElem.mp hsorted) a b ha' hb' hlt
+
+/-- **loc_slice_truthful** (closed slice `.loc[x:y]`, `x ≤ y`, selection spanning several partitions): the first
+    and last selected partitions are trimmed to the slice, the ones in between are untouched, and the reported
+    divisions `(max(x, d_start), d_start+1, …, d_stop, min(y, d_stop+1))` describe them truthfully. -/
+theorem loc_slice_truthful_multi {α : Type} (key : α → Nat) (divs : List Nat) (parts : List (List α))
+    (x y : Nat) (pl : LocPlan) (ps' : List (List α)) (h : Truthful key divs parts)
+    (hpl : locSlice divs (some x) (some y) = some pl) (hne : pl.stop ≠ pl.start)
+    (hps : locSliceParts key parts pl (some x) (some y) = some ps') :
+    Truthful key pl.divisions ps' := by
+  obtain ⟨hlen, hsorted, hrows⟩ := h
+  -- unpack the plan
+  have h2' : 2 ≤ divs.length := by
+    apply Nat.le_of_not_lt
+    intro hcon
+    simp [locSlice, hcon] at hpl
+  have h2 : ¬ divs.length < 2 := by omega
+  obtain ⟨d0, hd0⟩ : ∃ d0, divs.head? = some d0 := by
+    cases divs with
+    | nil => simp at h2'
+    | cons a _ => exact ⟨a, rfl⟩
+  obtain ⟨dl, hdl⟩ : ∃ dl, divs.getLast? = some dl := by
+    cases hq : divs.getLast? with
+    | none => rw [List.getLast?_eq_none_iff] at hq; subst hq; simp at h2'
+    | some v => exact ⟨v, rfl⟩
+  simp only [locSlice, h2, if_false, hd0, hdl] at hpl
+  unfold locSliceCore at hpl
+  simp only at hpl
+  have hne' : ¬ partitionOf divs y = partitionOf divs x := by
+    intro heq
+    simp only [heq, if_true, Option.some.injEq] at hpl
+    subst hpl
+    exact hne rfl
+  simp only [hne', if_false] at hpl
+  obtain ⟨a0', ha0'⟩ : ∃ v, divs[partitionOf divs x]? = some v := by
+    cases hq : divs[partitionOf divs x]? with
+    | none => simp [hq] at hpl
+    | some v => exact ⟨v, rfl⟩
+  obtain ⟨b1', hb1'⟩ : ∃ v, divs[partitionOf divs y + 1]? = some v := by
+    cases hq : divs[partitionOf divs y + 1]? with
+    | none => simp [ha0', hq] at hpl
+    | some v => exact ⟨v, rfl⟩
+  simp only [ha0', hb1', Option.map_some, Option.some.injEq] at hpl
+  subst hpl
+  simp only at hne hps ⊢
+  -- abbreviations
+  obtain ⟨hsb, hsin, hshi, hslo⟩ := partitionOf_spec divs x d0 dl hsorted h2' hd0 hdl
+  obtain ⟨hpb, hpin, hphi, hplo⟩ := partitionOf_spec divs y d0 dl hsorted h2' hd0 hdl
+  -- the partitions
+  unfold locSliceParts at hps
+  simp only [hne, if_false, Option.bind_eq_bind] at hps
+  split at hps
+  · cases hps
+  rename_i hnlt
+  have hlt : (partitionOf divs x) < (partitionOf divs y) :=
+    Nat.lt_of_le_of_ne (Nat.le_of_not_lt hnlt) (fun h => hne h.symm)
+  simp only [Option.bind_eq_some_iff, Option.pure_def, Option.some.injEq] at hps
+  obtain ⟨first, hfirst, last, hlastp, rfl⟩ := hps
+  have hn : (partitionOf divs y) + 1 ≤ parts.length := by omega
+  -- values of the divisions involved
+  obtain ⟨a0, ha0⟩ : ∃ a0, a0 = a0' ∧ True := ⟨a0', rfl, trivial⟩
+  obtain ⟨rfl, _⟩ := ha0
+  obtain ⟨b1, hb1x⟩ : ∃ b1, b1 = b1' ∧ True := ⟨b1', rfl, trivial⟩
+  obtain ⟨rfl, _⟩ := hb1x
+  have ha0 : divs[(partitionOf divs x)]? = some a0 := ha0'
+  have hb1 : divs[(partitionOf divs y) + 1]? = some b1 := hb1'
+  have ha1 := List.getElem?_eq_getElem (l := divs) (i := (partitionOf divs x) + 1) (by omega)
+  have hbs := List.getElem?_eq_getElem (l := divs) (i := (partitionOf divs y)) (by omega)
+  -- x is below the division after `(partitionOf divs x)`, y is at or above the division at `(partitionOf divs y)`
+  have hx1 : x < divs[(partitionOf divs x) + 1] := by
+    rcases Nat.lt_or_ge x d0 with hxl | hxg
+    · have hd0' : divs[0]? = some d0 := by
+        cases divs with
+        | nil => simp at h2'
+        | cons a _ => simpa using hd0
+      have := div_le_of_sorted hsorted 0 ((partitionOf divs x) + 1) d0 _ (Nat.zero_le _) hd0' ha1
+      exact Nat.lt_of_lt_of_le hxl this
+    · rcases Nat.lt_or_ge x dl with hxl | hxg2
+      · obtain ⟨lo, hi, hlo, hhi, _, hxhi⟩ := hsin hxg hxl
+        rw [ha1] at hhi; cases hhi; exact hxhi
+      · have := hshi hxg2; omega
+  have hy1 : divs[(partitionOf divs y)] ≤ y := by
+    rcases Nat.lt_or_ge y d0 with hyl | hyg
+    · have := hplo hyl; omega
+    · rcases Nat.lt_or_ge y dl with hyl | hyg2
+      · obtain ⟨lo, hi, hlo, _, hloy, _⟩ := hpin hyg hyl
+        rw [hbs] at hlo; cases hlo; exact hloy
+      · have hlast' : divs[divs.length - 1]? = some dl := by rw [← List.getLast?_eq_getElem?]; exact hdl
+        have := div_le_of_sorted hsorted (partitionOf divs y) (divs.length - 1) _ dl (by omega) hbs hlast'
+        omega
+  -- shape of the middle divisions
+  have hmidlen : ((divs.drop ((partitionOf divs x) + 1)).take ((partitionOf divs y) + 1 - ((partitionOf divs x) + 1))).length = (partitionOf divs y) - (partitionOf divs x) := by
+    rw [List.length_take, List.length_drop]; omega
+  have hmidget : ∀ (j : Nat), j < (partitionOf divs y) - (partitionOf divs x) →
+      ((divs.drop ((partitionOf divs x) + 1)).take ((partitionOf divs y) + 1 - ((partitionOf divs x) + 1)))[j]? = divs[(partitionOf divs x) + 1 + j]? := by
+    intro j hj
+    rw [List.getElem?_take, if_pos (by omega), List.getElem?_drop]
+  have hpmidlen : ((parts.drop ((partitionOf divs x) + 1)).take ((partitionOf divs y) - (partitionOf divs x) - 1)).length = (partitionOf divs y) - (partitionOf divs x) - 1 := by
+    rw [List.length_take, List.length_drop]; omega
+  have hpmidget : ∀ (j : Nat), j < (partitionOf divs y) - (partitionOf divs x) - 1 →
+      ((parts.drop ((partitionOf divs x) + 1)).take ((partitionOf divs y) - (partitionOf divs x) - 1))[j]? = parts[(partitionOf divs x) + 1 + j]? := by
+    intro j hj
+    rw [List.getElem?_take, if_pos (by omega), List.getElem?_drop]
+  -- every reported division by position
+  have hd'get : ∀ (j : Nat), 1 ≤ j → j ≤ (partitionOf divs y) - (partitionOf divs x) →
+      (max x a0 :: ((divs.drop ((partitionOf divs x) + 1)).take ((partitionOf divs y) + 1 - ((partitionOf divs x) + 1)) ++ [min y b1]))[j]? = divs[(partitionOf divs x) + j]? := by
+    intro j hj1 hj2
+    obtain ⟨j', rfl⟩ : ∃ j', j = j' + 1 := ⟨j - 1, by omega⟩
+    rw [List.getElem?_cons_succ, List.getElem?_append_left (by omega), hmidget j' (by omega)]
+    congr 1; omega
+  have hd'last : (max x a0 :: ((divs.drop ((partitionOf divs x) + 1)).take ((partitionOf divs y) + 1 - ((partitionOf divs x) + 1)) ++ [min y b1]))[(partitionOf divs y) - (partitionOf divs x) + 1]? = some (min y b1) := by
+    rw [List.getElem?_cons_succ, List.getElem?_append_right (by omega), hmidlen]; simp
+  refine ⟨by simp [hmidlen, hpmidlen]; omega, ?_, ?_⟩
+  · -- sorted
+    rw [List.pairwise_iff_getElem]
+    intro i j hi hj hij
+    have hlen' : (max x a0 :: ((divs.drop ((partitionOf divs x) + 1)).take ((partitionOf divs y) + 1 - ((partitionOf divs x) + 1)) ++ [min y b1])).length = (partitionOf divs y) - (partitionOf divs x) + 2 := by
+      simp only [List.length_cons, List.length_append, hmidlen, List.length_nil]
+    -- value at a position, as a bound
+    have lower : ∀ (t : Nat) (ht : t < (partitionOf divs y) - (partitionOf divs x) + 2) (v : Nat),
+        (max x a0 :: ((divs.drop ((partitionOf divs x) + 1)).take ((partitionOf divs y) + 1 - ((partitionOf divs x) + 1)) ++ [min y b1]))[t]? = some v →
+        (t = 0 → v = max x a0) ∧ (1 ≤ t → t ≤ (partitionOf divs y) - (partitionOf divs x) → divs[(partitionOf divs x) + t]? = some v) ∧ (t = (partitionOf divs y) - (partitionOf divs x) + 1 → v = min y b1) := by
+      intro t ht v hv
+      refine ⟨?_, ?_, ?_⟩
+      · intro h0; subst h0; simpa using hv.symm
+      · intro h1 h2; rw [hd'get t h1 h2] at hv; exact hv
+      · intro h3; subst h3; rw [hd'last] at hv; exact (Option.some.inj hv).symm
+    have hvi := List.getElem?_eq_getElem hi
+    have hvj := List.getElem?_eq_getElem hj
+    obtain ⟨li0, limid, lilast⟩ := lower i (by omega) _ hvi
+    obtain ⟨lj0, ljmid, ljlast⟩ := lower j (by omega) _ hvj
+    have hmax_le : max x a0 ≤ divs[(partitionOf divs x) + 1] := by
+      have := div_le_of_sorted hsorted (partitionOf divs x) ((partitionOf divs x) + 1) a0 _ (by omega) ha0 ha1
+      omega
+    have hmin_ge : divs[(partitionOf divs y)] ≤ min y b1 := by
+      have := div_le_of_sorted hsorted (partitionOf divs y) ((partitionOf divs y) + 1) _ b1 (by omega) hbs hb1
+      omega
+    rcases Nat.eq_zero_or_pos i with hi0 | hipos
+    · rw [li0 hi0]
+      rcases Nat.lt_or_ge j ((partitionOf divs y) - (partitionOf divs x) + 1) with hjm | hjl
+      · have hjv := ljmid (by omega) (by omega)
+        have := div_le_of_sorted hsorted ((partitionOf divs x) + 1) ((partitionOf divs x) + j) _ _ (by omega) ha1 hjv
+        omega
+      · rw [ljlast (by omega)]
+        have := div_le_of_sorted hsorted ((partitionOf divs x) + 1) (partitionOf divs y) _ _ (by omega) ha1 hbs
+        omega
+    · have hiv := limid hipos (by omega)
+      rcases Nat.lt_or_ge j ((partitionOf divs y) - (partitionOf divs x) + 1) with hjm | hjl
+      · exact div_le_of_sorted hsorted ((partitionOf divs x) + i) ((partitionOf divs x) + j) _ _ (by omega) hiv (ljmid (by omega) (by omega))
+      · rw [ljlast (by omega)]
+        have := div_le_of_sorted hsorted ((partitionOf divs x) + i) (partitionOf divs y) _ _ (by omega) hiv hbs
+        omega
+  · -- row bounds
+    intro j p lo hi hp hlo hhi r hr
+    have hplen : (locRows key first (some x) none :: ((parts.drop ((partitionOf divs x) + 1)).take ((partitionOf divs y) - (partitionOf divs x) - 1) ++ [locRows key last none (some y)])).length = (partitionOf divs y) - (partitionOf divs x) + 1 := by
+      simp [hpmidlen]; omega
+    have hjlt : j < (partitionOf divs y) - (partitionOf divs x) + 1 := by
+      have := (List.getElem?_eq_some_iff.mp hp).1; omega
+    rcases Nat.eq_zero_or_pos j with hj0 | hjpos
+    · -- first selected partition
+      subst hj0
+      simp only [List.getElem?_cons_zero, Option.some.injEq] at hp hlo
+      subst hp; subst hlo
+      rw [hd'get 1 (by omega) (by omega), ha1] at hhi
+      cases hhi
+      unfold locRows at hr
+      simp only [List.mem_filter, Bool.and_eq_true, decide_eq_true_eq, Bool.and_true] at hr
+      obtain ⟨hrf, hxr⟩ := hr
+      obtain ⟨hlow, hup⟩ := hrows (partitionOf divs x) first a0 _ hfirst ha0 ha1 r hrf
+      refine ⟨by omega, Or.inl ?_⟩
+      rcases hup with h1 | ⟨h2, _⟩
+      · exact h1
+      · omega
+    · rcases Nat.lt_or_ge j ((partitionOf divs y) - (partitionOf divs x)) with hjm | hjl
+      · -- an untouched middle partition
+        obtain ⟨j', rfl⟩ : ∃ j', j = j' + 1 := ⟨j - 1, by omega⟩
+        rw [List.getElem?_cons_succ, List.getElem?_append_left (by omega), hpmidget j' (by omega)] at hp
+        rw [hd'get (j' + 1) (by omega) (by omega)] at hlo
+        rw [hd'get (j' + 1 + 1) (by omega) (by omega)] at hhi
+        have e1 : (partitionOf divs x) + 1 + j' = (partitionOf divs x) + (j' + 1) := by omega
+        have e2 : (partitionOf divs x) + (j' + 1 + 1) = (partitionOf divs x) + (j' + 1) + 1 := by omega
+        rw [e1] at hp; rw [e2] at hhi
+        obtain ⟨hlow, hup⟩ := hrows ((partitionOf divs x) + (j' + 1)) p lo hi hp hlo hhi r hr
+        refine ⟨hlow, Or.inl ?_⟩
+        rcases hup with h1 | ⟨h2, _⟩
+        · exact h1
+        · omega
+      · -- last selected partition
+        have hje : j = (partitionOf divs y) - (partitionOf divs x) := by omega
+        subst hje
+        have hpl' := getElem?_last_of_cons_append (locRows key first (some x) none) (locRows key last none (some y))
+          ((parts.drop ((partitionOf divs x) + 1)).take ((partitionOf divs y) - (partitionOf divs x) - 1))
+          ((partitionOf divs y) - (partitionOf divs x)) (by rw [hpmidlen]; omega)
+        rw [hpl'] at hp
+        have hp2 := Option.some.inj hp
+        subst hp2
+        rw [hd'get ((partitionOf divs y) - (partitionOf divs x)) (by omega) (by omega)] at hlo
+        have e3 : (partitionOf divs x) + ((partitionOf divs y) - (partitionOf divs x)) = (partitionOf divs y) := by omega
+        rw [e3, hbs] at hlo
+        cases hlo
+        rw [hd'last] at hhi
+        cases hhi
+        unfold locRows at hr
+        simp only [List.mem_filter, Bool.and_eq_true, decide_eq_true_eq, Bool.true_and] at hr
+        obtain ⟨hrl, hry⟩ := hr
+        obtain ⟨hlow, hup⟩ := hrows (partitionOf divs y) last _ b1 hlastp hbs hb1 r hrl
+        refine ⟨hlow, Or.inr ⟨by omega, ?_⟩⟩
+        rcases hup with h1 | ⟨_, h2⟩ <;> omega
+
+
+/-- **loc_slice_truthful** (closed slice `.loc[x:y]`): whatever the number of partitions the selection touches,
+    the reported divisions describe the resulting partitions truthfully. (Open-ended slices `.loc[x:]`, `.loc[:y]`
+    are validated by the tie; `LocSliceFullStatement` is the statement including them.) -/
+theorem loc_slice_truthful {α : Type} (key : α → Nat) (divs : List Nat) (parts : List (List α))
+    (x y : Nat) (hxy : x ≤ y) (pl : LocPlan) (ps' : List (List α)) (h : Truthful key divs parts)
+    (hpl : locSlice divs (some x) (some y) = some pl)
+    (hps : locSliceParts key parts pl (some x) (some y) = some ps') :
+    Truthful key pl.divisions ps' := by
+  by_cases hone : pl.stop = pl.start
+  · exact loc_slice_truthful_partial key divs parts x y hxy pl ps' hpl hone hps
+  · exact loc_slice_truthful_multi key divs parts x y pl ps' h hpl hone hps
 
 /-! non-vacuity -/
 example : sdl ([(0 : Nat), 0, 1, 1, 1, 1, 2, 2, 4, 5, 5, 5, 5].map id) (.npartitions 4) =
